@@ -56,10 +56,10 @@ Qed.
 Definition reply0 : list bytes := [[111; 107]%N; [33]%N].
 Definition su0 : C05.Model.tscript :=
   {| C05.Model.t_reads := up_reads [data0] live0 [] C05.Model.EOF; C05.Model.t_writes := ok_writes;
-     C05.Model.t_dls := ok_deadlines; C05.Model.t_cdst := None; C05.Model.t_csrc := None |}.
+     C05.Model.t_dls := ok_deadlines; C05.Model.t_cdst := None; C05.Model.t_csrc := None; C05.Model.t_csrc_blocks := false |}.
 Definition sd0 : C05.Model.tscript :=
   {| C05.Model.t_reads := ok_reads reply0; C05.Model.t_writes := ok_writes;
-     C05.Model.t_dls := ok_deadlines; C05.Model.t_cdst := None; C05.Model.t_csrc := None |}.
+     C05.Model.t_dls := ok_deadlines; C05.Model.t_cdst := None; C05.Model.t_csrc := None; C05.Model.t_csrc_blocks := false |}.
 (* Down is scheduled until both chunks of the reply are through (10 calls), then Up runs to its end
    (the client's EOF tears the relay down), then everybody in turn *)
 Definition sched0 : list C05.Model.tid :=
